@@ -49,7 +49,10 @@ def generate(seed, stratum, tier):
             'sched': common.draw_sched(rng, grans=('sync', 'line'), expected_steps=2500, victims=[rng.choice(['writer', 'consumer'])])}
   host = rng.choice(['queued', 'queued', 'ao'])
   build = rng.choice(['closure-spied', 'template'])
-  ops, weights = (('ev', 'rtc', 'post_fifo', 'circuit'), (6, 2, 2, 1)) if host == 'queued' else (('ev',), None)
+  ops, weights = (('ev', 'rtc', 'post_fifo', 'circuit'), (6, 2, 2, 1)) if host == 'queued' else (('ev',), (1,))
+  if rng.random() < 0.4:
+    # live output switched off and on again between steps, logs cleared between steps
+    ops, weights = ops + ('live', 'clear_trace', 'clear_spy'), tuple(weights) + (1.2, 0.6, 0.3)
   sc = cc.gen_chart_scenario(rng, combos=[(host, build)], ops=ops, weights=weights, nops=(3, 25), flags=False,
                              spec_kw={'nstates': rng.randrange(2, 9), 'p_react': 0.7})
   sc['live_spy'], sc['live_trace'] = rng.choice([(True, True), (True, False), (False, True), (False, True)])
